@@ -114,14 +114,14 @@ def w_limits(ctx, wid, seed, examples):
 
 
 def run(tier, t0):
-    n = 260 if tier == 'quick' else 6000
+    n = 1200 if tier == 'quick' else 8000
     m = core.parallel(PID, [(w_limits, dict(examples=n)) for _ in range(core.WORKERS)])
     # table limit x way x version x at: report empty cells
     cells = collections.Counter()
     for k, v in m.counters.items():
         cells[k.split('=')[0]] += v
     want = []
-    for lim, ways in (('opcount', ['neutral-units', 'unexecuted-branch', 'multisig-keys', 'multisig-mid', 'phases', 'mixed-units']), ('stack', ['pushes', 'dup', '2dup', '3dup', 'altstack', 'initial+growth', 'initial-only', 'unexecuted-no-growth']),
+    for lim, ways in (('opcount', ['neutral-units', 'unexecuted-branch', 'multisig-keys', 'multisig-mid', 'phases', 'mixed-units', 'interrupted']), ('stack', ['pushes', 'dup', '2dup', '3dup', 'altstack', 'initial+growth', 'initial-only', 'unexecuted-no-growth']),
                       ('push', ['pushdata2', 'pushdata4', 'unexecuted', 'initial-stack', 'successor-executed', 'successor-unexecuted']), ('scriptsize', ['pushes', 'nops-unexecuted', 'big-pushes']), ('multisig-keys', ['zero-sigs', 'one-empty-sig', 'keys-from-stack'])):
         for w in ways:
             for at in (-1, 0, 1):
